@@ -367,7 +367,10 @@ func (m *matcher) findMatches(known *knownValue) {
 			for i, tok := range m.unknown.Tokens {
 				if tok.Offset == a[0] {
 					start = i
-				} else if tok.Offset >= a[len(a)-1]-len(tok.Text) {
+				}
+				// Not "else if": an occurrence of a single token starts and
+				// ends in the same token.
+				if tok.Offset >= a[len(a)-1]-len(tok.Text) {
 					end = i
 					break
 				}
